@@ -258,6 +258,10 @@ def sinkLoop (L : Lang) (src : List Nat) : Nat → List Event → SinkSt → Res
 def sink (L : Lang) (src : List Nat) (toks : List Tok) (events : List Event) : Res Tree :=
   (sinkLoop L src events.length events ⟨toks, Builder.empty⟩).bind fun st => st.b.finish
 
+/-- The text of the tree the sink builds (used to state concrete instances decidably). -/
+def sinkText (L : Lang) (src : List Nat) (toks : List Tok) (events : List Event) : Res (List Nat) :=
+  (sink L src toks events).bind fun t => .ok t.text
+
 /-! ## Premises of the sink theorem, as executable checks (also run on the real stream) -/
 
 /-- One step of the nesting depth; `none` = a `Finish` without an open node, or a token /
@@ -415,5 +419,8 @@ def parseOps (root : Nat) (body : List POp) : List POp := .startNode root :: bod
 
 /-- The grammar's operations respect the discipline. -/
 def Disciplined (body : List POp) : Prop := disc ⟨[], [], 0⟩ 1 body = true
+
+instance (body : List POp) : Decidable (Disciplined body) := by
+  unfold Disciplined; infer_instance
 
 end TrustVerif.C12
